@@ -155,6 +155,11 @@ pub struct Conn {
 }
 
 pub async fn connect(kind: Kind) -> Conn {
+    connect_with(kind, None).await
+}
+
+/// `ws_limits`: `WebSocketClient::connect_with_limits` instead of `connect` (ignored for the AsyncClient).
+pub async fn connect_with(kind: Kind, ws_limits: Option<repe::WebSocketLimits>) -> Conn {
     let s = slot();
     match kind {
         Kind::Async => {
@@ -167,7 +172,13 @@ pub async fn connect(kind: Kind) -> Conn {
             let (client_end, server_end, ctl) = memstream::pair();
             repe::verif_io::register_stream(s, client_end);
             let url = format!("ws://127.254.77.1:{s}/");
-            let (c, ws) = tokio::join!(WebSocketClient::connect(&url), tokio_tungstenite::accept_async(server_end));
+            let (c, ws) = match ws_limits {
+                None => tokio::join!(WebSocketClient::connect(&url), tokio_tungstenite::accept_async(server_end)),
+                Some(l) => {
+                    let (c, ws) = tokio::join!(WebSocketClient::connect_with_limits(&url, l), tokio_tungstenite::accept_async(server_end));
+                    (c, ws)
+                }
+            };
             let c = c.expect("ws mem connect");
             let ws = ws.expect("ws accept");
             let rx = c.subscribe_notifies().ok();
